@@ -274,8 +274,15 @@ package core
 // fileDestination: where the named output exists when the command runs.
 //@ assume func (BuildTarget).OutDir
 //@   pure
-//@ assume func (BuildTarget).Outputs
+// Outputs: the declared and named outputs in SORTED order whatever order the named-output map is iterated in
+// (its value is a function of the target: `pure`).
+//@ func (BuildTarget).Outputs
 //@   pure
+//@   requires target != nil
+//@   opt nopanic=off
+//@   opt inline=off
+//@   opt permutation=multiset
+//@   ensures sorted [C07]: forall i int :: 0 < i && i < len(result) ==> result[i-1] <= result[i]
 //@ func fileDestination
 //@   requires target != nil && dep != nil
 //@   modifies nothing
@@ -597,3 +604,27 @@ package core
 //@   pure
 //@ assume func (BuildGraph).Package
 //@   pure
+
+// CollapseHash (the cache key, C02): every byte of the key is the XOR of the corresponding bytes of ALL the
+// parts of the target hash — rule hash, post-build rule hash (unless it repeats the first), configuration hash
+// and source hash — so a change in any part changes the key.
+//@ func CollapseHash
+//@   requires len(key) >= 80
+//@   modifies nothing
+//@   invariant "loop#1" done: 0 <= i && i <= 20 && (forall k int :: 0 <= k && k < i ==> short[k] == key[k] ^ key[k+40] ^ key[k+60])
+//@   invariant "loop#2" done: 0 <= i && i <= 20 && (forall k int :: 0 <= k && k < i ==> short[k] == key[k] ^ key[k+20] ^ key[k+40] ^ key[k+60])
+//@   ensures every_part_contributes [C02]: len(result) == 20 && \
+//@      (bytes.Equal(key[0:20], key[20:40]) ==> (forall k int :: 0 <= k && k < 20 ==> result[k] == key[k] ^ key[k+40] ^ key[k+60])) && \
+//@      (!bytes.Equal(key[0:20], key[20:40]) ==> (forall k int :: 0 <= k && k < 20 ==> result[k] == key[k] ^ key[k+20] ^ key[k+40] ^ key[k+60]))
+
+//@ assume func (BuildTarget).AllTools
+//@   pure
+
+// getCommand: when no command matches the configuration, the fallback is the command of the LARGEST config name
+// present — the same whatever order the map is iterated in.
+//@ func (BuildTarget).getCommand
+//@   requires target != nil && state != nil && state.Config != nil
+//@   opt nopanic=off
+//@   invariant "range commands" max_so_far [C07]: (forall k string :: visited(k) ==> k <= highestConfig) && \
+//@      (highestConfig == "" || (in(highestConfig, commands) && highestCommand == commands[highestConfig])) && \
+//@      (highestConfig == "" ==> highestCommand == "")
